@@ -92,10 +92,11 @@ def _h2_worker(args):
     n = 0
     with open(tp, "w") as f:
         for sc in scens:
+            keep = any(isinstance(h, dict) and h.get("printer") for h in sc.get("hist", []))   # the output-stream check needs ninja's stdout
             for evs in h2.explore(sc, ninja, vcmd, maxruns):
                 n += 1
                 for e in evs:
-                    if e["e"] == "Exit":
+                    if e["e"] == "Exit" and not keep:
                         e = {k: v for k, v in e.items() if k != "stdout"}
                     f.write(json.dumps(e) + "\n")
     return n
@@ -122,27 +123,28 @@ def run_h2(scen, wd, maxruns, nproc=12):
     return files, sum(counts)
 
 
-def design_mc(wd, sd, K, consts, invariants, timeout, ngraphs=None, workers=NCPU):
+def design_mc(wd, sd, K, consts, invariants, timeout, ngraphs=None, workers=NCPU, properties=(), fam="mc"):
     """Design-level model checking of spec/NinjaImplMC.tla over graphs exported from Families.tla (family "mc").
     Returns dict(states, distinct, finished).  An invariant violation of the design model is reported as a broken
     check (exit 2): it is a candidate only, to be confirmed on the real code by the trace-validation part."""
-    gp = export_family("mc", K, 1, sd)
+    gp = export_family(fam, K, 1, sd)
     graphs = [l for l in open(gp) if l.strip()]
     if ngraphs:
         graphs = graphs[:ngraphs]
     gfile = os.path.join(wd, "graphs.ndjson")
     open(gfile, "w").write("".join(graphs))
     cfg = os.path.join(wd, "mc_impl.cfg")
-    open(cfg, "w").write("SPECIFICATION Spec\nCONSTANTS\n" + "".join("  %s = %s\n" % kv for kv in consts.items()) +
-                         "".join("INVARIANT %s\n" % i for i in invariants) + "CHECK_DEADLOCK FALSE\n")
+    # temporal properties are checked under the fairness assumptions of FairSpec (commands end, the loop takes its steps)
+    open(cfg, "w").write("SPECIFICATION %s\nCONSTANTS\n" % ("FairSpec" if properties else "Spec") + "".join("  %s = %s\n" % kv for kv in consts.items()) +
+                         "".join("INVARIANT %s\n" % i for i in invariants) + "".join("PROPERTY %s\n" % i for i in properties) + "CHECK_DEADLOCK FALSE\n")
     r = run_tlc("NinjaImplMC.tla", cfg, env={"GRAPHS": gfile}, workers=workers, extra=["-noGenerateSpecTE"], timeout=timeout, xmx="20g")
     finished = "Model checking completed" in r["out"]
-    if "is violated" in r["out"] or ("Error:" in r["out"] and not finished and r["rc"] != 124):
+    if "is violated" in r["out"] or "Temporal properties were violated" in r["out"] or ("Error:" in r["out"] and not finished and r["rc"] != 124):
         raise Broken("design-level model NinjaImplMC: %s\n%s" % (r["error"], r["out"][-3000:]))
     import re
     m = re.findall(r"(\d[\d,]*) states generated.*?(\d[\d,]*) distinct states found", r["out"])
     st, di = (int(m[-1][0].replace(",", "")), int(m[-1][1].replace(",", ""))) if m else (0, 0)
-    return {"states": st, "distinct": di, "finished": finished, "graphs": len(graphs), "constants": consts, "invariants": invariants}
+    return {"states": st, "distinct": di, "finished": finished, "graphs": len(graphs), "constants": consts, "invariants": invariants, "temporal_properties": list(properties)}
 
 
 def impl_conformance(files, wd):
@@ -202,7 +204,7 @@ def locate(trace_path, line_no):
     ev = None
     with open(trace_path) as f:
         for i, line in enumerate(f, 1):
-            if line.startswith('{"e":"Reset"'):
+            if line.startswith('{"e":"Reset"') or line.startswith('{"e": "Reset"'):
                 if i > line_no:
                     break
                 j = json.loads(line)
@@ -210,7 +212,7 @@ def locate(trace_path, line_no):
                 choices = None
             if i == line_no:
                 ev = json.loads(line)
-            if i >= line_no and line.startswith('{"e":"EndRun"'):
+            if i >= line_no and (line.startswith('{"e":"EndRun"') or line.startswith('{"e": "EndRun"')):
                 return sc, run, json.loads(line)["choices"], ev
     return sc, run, [], ev
 
@@ -249,7 +251,7 @@ def engine_check(pid, fams, tier_, maxruns, level_note="", props=None, extra_cov
             files2, h2execs = run_h2(scen2, wd, h2.get("maxruns", 4))
             files = files + files2
         results = validate(files, wd)
-        sres = stream_validate(h1files, wd) if stream else None
+        sres = stream_validate(files, wd) if stream else None
         dres = design_mc(wd, sd, **design) if design else None
         ires = impl_conformance(h1files, wd) if impl else None
         known = {k["id"]: k for k in load_known_findings() if k.get("status") == "open" and pid in k.get("properties", [])}
